@@ -13,10 +13,13 @@ Four layers:
    configuration × interface table (§ expected set);
 3. `Cycle`: the gathering-cycle state machine (New → Gathering → Complete, refusal outside New,
    cancellation by Restart, the nil candidate), at the granularity of agent tasks, with the
-   check/hand-off window of `addCandidate` explicit;
+   check/hand-off window of `addCandidate` explicit; with the continual policy: no Complete, the monitor
+   (`tick` → re-gather pass of the same cycle, or its end on the cancelled context);
 4. `Prog`: every gatherer as a small program over resources (acquire / fallible step / release /
    addCandidate = transfer ownership | fail | duplicate), its ledger semantics, and `MState`/`step`:
-   the composition that the driver runs in lock-step with the real agent.
+   the composition that the driver runs in lock-step with the real agent — incl. continual gathering:
+   `lastKnownInterfaces`, the monitor goroutine (`Mon`: next tick, busy, buffered tick), a changing interface
+   table (`ifaces`), virtual time that stops at every timeout and tick (`advanceTo`).
 -/
 namespace IceModel.Gather
 
@@ -163,12 +166,22 @@ structure Config where
   hostRule : Option HostRule := none
   /-- the fake UDP mux parks `GetListenAddresses` until `release` -/
   hold : Bool := false
-  /-- which of the findings C18-G1 … G5, G8, G9 (numbered 1–5, 8, 9) the code under test still HAS (detected by canary sessions of the
-  harness); the empty list is the repaired code, about which the theorems speak -/
+  /-- `WithContinualGatheringPolicy(GatherContinually)`: after the first pass the cycle does not complete; a monitor
+  goroutine polls the interface table every `monIntervalMs` and re-gathers when an address appeared -/
+  continual : Bool := false
+  /-- `WithNetworkMonitorInterval` in ms; 0 = option not given (default 2 s) -/
+  monIntervalMs : Nat := 0
+  /-- which of the findings C18-G1 … G5, G8, G9 (numbered 1–5, 8, 9), C18-G10 (10: `lastKnownInterfaces` is recorded AFTER
+  the first pass and MERGED into the map of earlier cycles) and C09-G11 (11: Close does not wait for a re-gather pass of the
+  monitor) the code under test still HAS (detected by canary sessions of the harness); the empty list is the repaired
+  code, about which the theorems speak -/
   quirks : List Nat := []
   deriving Repr, Inhabited
 
 def Config.has (cfg : Config) (q : Nat) : Bool := cfg.quirks.contains q
+
+/-- `networkMonitorInterval` in ms -/
+def Config.monInterval (cfg : Config) : Nat := if cfg.monIntervalMs == 0 then 2000 else cfg.monIntervalMs
 
 /-- `nm` is not an address: it never occurs in an interface table or as a mux listen address -/
 def realAddrs (cfg : Config) (ifs : List Iface) : Bool :=
@@ -236,6 +249,8 @@ structure CandD where
   /-- related address (srflx, relay) -/
   base : Option Addr := none
   hidden : Bool := false
+  /-- the zone of an IPv6 link-local interface address (= its interface): part of the candidate's address literal -/
+  zone : Option Nat := none
   deriving DecidableEq, Repr, Inhabited
 
 inductive UKind where
@@ -255,6 +270,8 @@ structure GUnit where
   /-- host units: the address the candidate PUBLISHES (the socket stays on `bind`); differs from `bind`
   only when a host rewrite rule maps `bind` -/
   mapped : Addr := bind
+  /-- host units gathered from the interface table: the interface `bind` was seen on -/
+  ifc : Nat := 0
   deriving DecidableEq, Repr, Inhabited
 
 /-- `findExternalIPs(host, l, iface)` for the single rule: `none` = not matched. `ifc = none` is the lookup
@@ -315,9 +332,9 @@ def hostIfaceUnits (cfg : Config) (ifs : List Iface) : List GUnit :=
   (localAddrs cfg nts ifs).flatMap fun (a, ifc) =>
     (hostMapped cfg a ifc).flatMap fun m =>
       (if hasTcp && (hostNetEnabled nts true m || cfg.has 1) && hostPubOk cfg m && tcpMuxAccepts cfg a
-        then [{ kind := .hostTcp, net := NetType.ofTransport true m.cls.is6, bind := a, mapped := m : GUnit }] else [])
+        then [{ kind := .hostTcp, net := NetType.ofTransport true m.cls.is6, bind := a, mapped := m, ifc := ifc : GUnit }] else [])
       ++ (if hasUdp && (hostNetEnabled nts false m || cfg.has 1) && hostPubOk cfg m
-        then [{ kind := .hostUdp, net := NetType.ofTransport false m.cls.is6, bind := a, mapped := m : GUnit }] else [])
+        then [{ kind := .hostUdp, net := NetType.ofTransport false m.cls.is6, bind := a, mapped := m, ifc := ifc : GUnit }] else [])
 
 /-- units of `gatherCandidatesLocalUDPMux` before the duplicate-configuration test -/
 def hostMuxUnits (cfg : Config) : List GUnit :=
@@ -428,14 +445,18 @@ def ownPortFlag (cfg : Config) : PFlag := if (portRange cfg).isSome then .r else
 /-- host candidates: the address of the SOCKET, recorded only when the candidate publishes another one -/
 def GUnit.sockBase (u : GUnit) : Option Addr := if u.mapped == u.bind then none else some u.bind
 
+/-- the literal of an IPv6 link-local INTERFACE address carries its interface as zone (an external address of a
+host rule, and a mux listen address, have none) -/
+def GUnit.zone (u : GUnit) : Option Nat := if u.mapped == u.bind && u.bind.cls.isLinkLocal6 then some u.ifc else none
+
 /-- the candidate a unit adds for its `ci`-th address, given the value `m` of the server's reply -/
 def unitCand (cfg : Config) (u : GUnit) (ci : Nat) (m : Nat) : CandD :=
   let pf : PFlag := ownPortFlag cfg
   match u.kind with
   | .hostUdp => { ty := .host, net := u.net, addr := u.mapped, mdns := cfg.mdnsGather, pflag := pf,
-                  base := u.sockBase, hidden := !cfg.mdnsGather && u.mapped.cls.isLinkLocal6 }
+                  base := u.sockBase, hidden := !cfg.mdnsGather && u.mapped.cls.isLinkLocal6, zone := u.zone }
   | .hostTcp => { ty := .host, net := u.net, addr := u.mapped, mdns := cfg.mdnsGather, pflag := .M,
-                  base := u.sockBase, hidden := !cfg.mdnsGather && u.mapped.cls.isLinkLocal6 }
+                  base := u.sockBase, hidden := !cfg.mdnsGather && u.mapped.cls.isLinkLocal6, zone := u.zone }
   | .hostMux =>
     if cfg.mdnsGather then { ty := .host, net := .udp4, addr := ⟨.nm, 0⟩, mdns := true, pflag := .M }
     else { ty := .host, net := u.net, addr := u.mapped, pflag := .M, base := u.sockBase,
@@ -477,7 +498,14 @@ def publishable (cfg : Config) (d : CandD) : Bool :=
 Granularity: one transition per agent task (tasks are serialised by the task loop), plus the two
 halves of `addCandidate` — the context check made by the gather goroutine (`addCheck`) and the task
 that starts the candidate (`addHandoff`) — so that a `Restart` can fall between them.  `recheck` says
-whether the task re-checks the cycle's context (it does not in the code as it stands: S5). -/
+whether the task re-checks the cycle's context (it does not in the code as it stands: S5).
+
+CONTINUAL GATHERING (`State.continual`, fixed at construction): when the first pass of a live cycle is over
+(`complete c`), `gatherCandidates` does NOT set Complete and delivers no nil candidate; it starts the monitor
+(`Cyc.monitoring`). `tick c` = the monitor's `select` returns: on the cycle's cancelled context (Restart, a
+later GatherCandidates, Close) the monitor ends (`finished`); on the ticker, when `detectNetworkChanges` saw a
+new address, a re-gather pass of THE SAME cycle begins (`Out.regather`) — its `addCandidate` calls are the
+same `addCheck` / `addHandoff` events, under the same context. -/
 namespace Cycle
 
 inductive GS where
@@ -494,6 +522,8 @@ structure Cyc where
   finished : Bool := false
   /-- `addCandidate` calls that passed the context check and have not yet been handed to the loop -/
   inWindow : Nat := 0
+  /-- continual gathering: the first pass is over, `startNetworkMonitoring` runs -/
+  monitoring : Bool := false
   deriving DecidableEq, Repr, Inhabited
 
 inductive Out where
@@ -507,6 +537,10 @@ inductive Out where
   | addFailed (cyc : Nat)
   | nilCand (cyc gen : Nat)
   | restarted (gen : Nat)
+  /-- continual gathering: the first pass of cycle `cyc` is over, its monitor starts -/
+  | monitorStarted (cyc : Nat)
+  /-- the monitor of cycle `cyc` (accepted in generation `gen`) begins a re-gather pass -/
+  | regather (cyc gen : Nat)
   deriving DecidableEq, Repr, Inhabited
 
 structure State where
@@ -514,6 +548,8 @@ structure State where
   gen : Nat := 0
   closed : Bool := false
   cycles : List Cyc := []
+  /-- `continualGatheringPolicy == GatherContinually` -/
+  continual : Bool := false
   deriving Repr, Inhabited
 
 inductive Ev where
@@ -525,6 +561,8 @@ inductive Ev where
   | complete (c : Nat)
   | restart
   | close
+  /-- the `select` of the monitor of cycle `c` returns (context cancelled, or a tick that found a new address) -/
+  | tick (c : Nat)
   deriving DecidableEq, Repr, Inhabited
 
 def modify (s : State) (c : Nat) (f : Cyc → Cyc) : State :=
@@ -573,8 +611,11 @@ def step (recheck : Bool) (s : State) : Ev → State × List Out
     match s.cycles[c]? with
     | none => (s, [])
     | some cy =>
-      if !cy.applied || cy.finished || cy.inWindow != 0 then (s, [])
+      if !cy.applied || cy.finished || cy.inWindow != 0 || cy.monitoring then (s, [])
       else if s.closed || cy.cancelled then (modify s c fun y => { y with finished := true }, [])
+      else if s.continual then
+        -- GatherContinually: no Complete, no nil candidate; the monitor starts
+        (modify s c fun y => { y with monitoring := true }, [.monitorStarted c])
       else
         ({ modify s c (fun y => { y with finished := true }) with gs := .complete },
           (if s.gs != .complete then [.nilCand c cy.gen] else []) ++ [.stateSet c .complete])
@@ -583,6 +624,15 @@ def step (recheck : Bool) (s : State) : Ev → State × List Out
     else ({ s with cycles := cancelAll s.cycles, gs := .new, gen := s.gen + 1 }, [.restarted (s.gen + 1)])
   | .close =>
     ({ s with closed := true, cycles := cancelAll s.cycles }, [])
+  | .tick c =>
+    match s.cycles[c]? with
+    | none => (s, [])
+    | some cy =>
+      if !cy.monitoring || cy.finished || !cy.applied || !s.continual then (s, [])
+      -- `<-ctx.Done()`: the monitor of a cancelled cycle (or of a closed agent) ends
+      else if s.closed || cy.cancelled then (modify s c fun y => { y with finished := true }, [])
+      -- `<-ticker.C` with a new address: `gatherCandidatesInternal(ctx)` once more, under the cycle's context
+      else (s, [.regather c cy.gen])
 
 def run (recheck : Bool) : State → List Ev → State × List Out
   | s, [] => (s, [])
@@ -858,6 +908,16 @@ structure Job where
 def Job.led (j : Job) : Led := { slots := j.slots.map (·.2), misuse := j.misuse }
 def Job.heldRes (j : Job) : List Res := (j.slots.filter (fun p => p.2 == .held)).map (·.1)
 
+/-- `startNetworkMonitoring` of cycle `cyc`: virtual time of the ticker's next tick; `busy` = the goroutine is
+inside a re-gather pass (`gatherCandidatesInternal` waits for its gatherers); `buffered` = a tick fired meanwhile
+(the ticker's channel holds one, further ones are dropped) -/
+structure Mon where
+  cyc : Nat
+  next : Nat
+  busy : Bool := false
+  buffered : Bool := false
+  deriving DecidableEq, Repr, Inhabited
+
 structure MState where
   cfg : Config := {}
   ifs : List Iface := []
@@ -877,6 +937,12 @@ structure MState where
   nilOp : Nat := 0
   nilsGen : Nat := 0
   failed : Nat := 0
+  /-- interface tables the fake Net had before the current one (`ifaces` operations), newest first -/
+  ifsHist : List (List Iface) := []
+  /-- `lastKnownInterfaces`: keys = address literal, which carries the interface as zone for IPv6 link-local -/
+  lastKnown : List (Addr × Option Nat) := []
+  /-- the monitor goroutine of the live continual cycle -/
+  mon : Option Mon := none
   deriving Repr, Inhabited
 
 def stunTimeoutMs : Nat := 5000
@@ -899,9 +965,10 @@ def bumpMux (l : List ((Kind × Nat) × Nat)) (k : Kind) (tag : Nat) : List ((Ki
   else l ++ [((k, tag), 1)]
 
 /-- the same IPv6 link-local address on two interfaces differs by its zone; an external address of a host rule
-has no zone -/
+and a mux listen address have no zone. (Within one pass two candidates with the same link-local interface address
+come from two interfaces; a re-gather pass of the monitor meets the candidate of the SAME interface again.) -/
 def zoned (a b : CandD) : Bool :=
-  a.addr.cls.isLinkLocal6 && (a.ty != .host || a.base.isNone || b.base.isNone)
+  a.addr.cls.isLinkLocal6 && a.zone != b.zone
 
 /-- `Candidate.Equal` on the candidates the model can produce: only candidates on a mux port can
 collide (every socket the agent opens itself has its own port) -/
@@ -1032,9 +1099,11 @@ def runHostMux (s : MState) (c gen : Nat) : List GUnit → List CandD → MState
     let d := { unitCand s.cfg u 0 0 with base := none }
     if seen.contains d then runHostMux s c gen us seen
     else
-      let n := s.cands.length
-      let s' := startUnit s c gen u
-      runHostMux s' c gen us (if s'.cands.length > n then d :: seen else seen)
+      -- `existingConfigs[hostConfig]` is set when `addCandidate` returned nil: the candidate was started, or it was a
+      -- duplicate of one an earlier pass of the monitor had started (its connection is closed, no error)
+      let added := !s.cyc.closed && ((s.cyc.cycles[c]?).map (fun y => !y.cancelled)).getD false
+        && publishable s.cfg (unitCand s.cfg u 0 0)
+      runHostMux (startUnit s c gen u) c gen us (if added then d :: seen else seen)
 
 /-- `gatherCandidatesLocal` after the gate -/
 def runHost (s : MState) (c gen : Nat) : MState :=
@@ -1051,7 +1120,32 @@ def runCycleUnits (s : MState) (c gen : Nat) : MState :=
     | .srflx => (srflxAllUnits s.cfg s.ifs).foldl (fun s u => startUnit s c gen u) s
     | .relay => (relayUnits s.cfg s.ifs).foldl (fun s u => startUnit s c gen u) s) s
 
-/-- the cycle of the current generation completes when its last unit has returned -/
+/-- key of an address in `lastKnownInterfaces` (`info.addr.String()`) -/
+def lkKey (a : Addr) (ifc : Nat) : Addr × Option Nat := (a, if a.cls.isLinkLocal6 then some ifc else none)
+
+/-- the keys of `localInterfaces(a.net, a.interfaceFilter, a.ipFilter, a.networkTypes, a.includeLoopback)` now -/
+def currentKeys (s : MState) : List (Addr × Option Nat) :=
+  ((localAddrs s.cfg s.cfg.netTypes s.ifs).map fun p => lkKey p.1 p.2).eraseDups
+
+/-- continual gathering, repaired code: the interface set is recorded when the cycle starts gathering, replacing
+whatever an earlier cycle left (the code with C18-G10 records it after the first pass instead: `startMonitor`) -/
+def recordKnown (s : MState) : MState :=
+  if s.cfg.continual && !s.cfg.has 10 then { s with lastKnown := currentKeys s } else s
+
+/-- the first pass of the live continual cycle `c` is over: `startNetworkMonitoring` creates its ticker now -/
+def startMonitor (s : MState) (c : Nat) : MState :=
+  { s with mon := some { cyc := c, next := s.now + s.cfg.monInterval },
+           -- C18-G10: recorded only now, merged into the map earlier cycles left
+           lastKnown := if s.cfg.has 10 then (s.lastKnown ++ currentKeys s).eraseDups else s.lastKnown }
+
+/-- number of nil candidates among the outputs of a transition -/
+def nilsIn (outs : List Cycle.Out) : Nat :=
+  (outs.filter (fun o => match o with | .nilCand _ _ => true | _ => false)).length
+
+def startMonitorIf (b : Bool) (s : MState) (c : Nat) : MState := if b then startMonitor s c else s
+
+/-- the cycle of the current generation completes when its last unit has returned (continual gathering: its
+monitor starts instead) -/
 def finishCycle (s : MState) : MState :=
   if s.cyc.closed || s.cyc.gs != .gathering then s else
   match (List.range s.cyc.cycles.length).find? (fun i =>
@@ -1059,9 +1153,55 @@ def finishCycle (s : MState) : MState :=
   | none => s
   | some c =>
     if s.jobs.any (·.cyc == c) || s.heldCycles.contains c then s else
-    let (cy, outs) := Cycle.step false s.cyc (.complete c)
-    let nils := (outs.filter (fun o => match o with | .nilCand _ _ => true | _ => false)).length
-    { s with cyc := cy, nilOp := s.nilOp + nils, nilsGen := s.nilsGen + nils }
+    startMonitorIf ((Cycle.step false s.cyc (.complete c)).2.contains (.monitorStarted c))
+      { s with cyc := (Cycle.step false s.cyc (.complete c)).1,
+               nilOp := s.nilOp + nilsIn (Cycle.step false s.cyc (.complete c)).2,
+               nilsGen := s.nilsGen + nilsIn (Cycle.step false s.cyc (.complete c)).2 } c
+
+/-- `detectNetworkChanges`: the current keys replace `lastKnownInterfaces`; was one of them unknown? -/
+def detect (s : MState) : MState × Bool :=
+  ({ s with lastKnown := currentKeys s }, (currentKeys s).any (fun k => !s.lastKnown.contains k))
+
+/-- a tick found the monitor `m` of the live cycle `c` idle: `detectNetworkChanges`, and with a new address a full
+`gatherCandidatesInternal` under the cycle's context — every candidate type, every CURRENT address, not only the
+new ones; what an earlier pass already published on a mux port comes back as a duplicate, every own socket is
+a further candidate on a further port. The pass occupies the goroutine until its last gatherer has returned. -/
+def monPass (s : MState) (m : Mon) (c gen : Nat) : MState :=
+  if (detect s).2 then
+    { runCycleUnits (detect s).1 c gen with
+      mon := some { m with busy := (runCycleUnits (detect s).1 c gen).jobs.any (·.cyc == c)
+                                    || (runCycleUnits (detect s).1 c gen).heldCycles.contains c, buffered := false } }
+  else (detect s).1
+
+/-- the monitor `m` (not inside a pass) takes a tick, if its cycle still owns the agent -/
+def monTick (s : MState) (m : Mon) : MState :=
+  match (Cycle.step false s.cyc (.tick m.cyc)).2 with
+  | [.regather c gen] => monPass { s with cyc := (Cycle.step false s.cyc (.tick m.cyc)).1 } m c gen
+  | _ => { s with cyc := (Cycle.step false s.cyc (.tick m.cyc)).1, mon := none }
+
+/-- a re-gather pass whose last gatherer has returned frees the monitor goroutine, which takes the buffered tick
+at once -/
+def monKick (s : MState) : MState :=
+  match s.mon with
+  | none => s
+  | some m =>
+    if !m.busy || s.jobs.any (·.cyc == m.cyc) || s.heldCycles.contains m.cyc then s
+    else if m.buffered then
+      monTick { s with mon := some { m with busy := false, buffered := false } } { m with busy := false, buffered := false }
+    else { s with mon := some { m with busy := false, buffered := false } }
+
+/-- the ticker's next instant after `now` -/
+def Mon.after (m : Mon) (interval now : Nat) : Mon :=
+  { m with next := m.next + interval * ((now - m.next) / interval + 1) }
+
+/-- the ticker fires (its next tick is due): an idle monitor takes the tick, a busy one finds it buffered later -/
+def tickDue (s : MState) : MState :=
+  match s.mon with
+  | none => s
+  | some m =>
+    if s.now < m.next then s
+    else if m.busy then { s with mon := some { m.after s.cfg.monInterval s.now with buffered := true } }
+    else monTick { s with mon := some (m.after s.cfg.monInterval s.now) } (m.after s.cfg.monInterval s.now)
 
 /-- give parked units their answers and run them on -/
 def resume (s : MState) (pick : Job → Option (Ans × Nat)) : MState :=
@@ -1088,13 +1228,39 @@ def dropCands (s : MState) : MState :=
   { s with closes := s.closes + (s.cands.flatMap (·.res)).length, cands := [] }
 
 def expire (s : MState) : MState :=
-  finishCycle (resume s (fun j => if j.deadline ≤ s.now then some (.fail, 0) else none))
+  monKick (finishCycle (resume s (fun j => if j.deadline ≤ s.now then some (.fail, 0) else none)))
 
 /-- open the gate of the fake mux: the parked host gatherers run -/
 def openGate (s : MState) : MState :=
   let held := s.heldCycles
   let s := { s with gateClosed := false, heldCycles := [] }
-  finishCycle (held.foldl (fun s c => runHost s c (((s.cyc.cycles[c]?).map (·.gen)).getD 0)) s)
+  monKick (finishCycle (held.foldl (fun s c => runHost s c (((s.cyc.cycles[c]?).map (·.gen)).getD 0)) s))
+
+/-! ### virtual time with a monitor running: timeouts and ticks in the order of their instants -/
+
+/-- the earliest instant strictly before `target` at which a parked unit times out or the ticker fires -/
+def nextEvent (s : MState) (target : Nat) : Option Nat :=
+  ((s.jobs.map (·.deadline) ++ (match s.mon with | some m => [m.next] | none => [])).filter (· < target)).foldl
+    (fun acc t => match acc with | none => some t | some a => some (min a t)) none
+
+/-- the clock reaches `t`: the units whose timeout has come return, then a due tick is taken -/
+def atTime (s : MState) (t : Nat) : MState :=
+  tickDue (expire { s with now := max s.now t })
+
+def advLoop : Nat → MState → Nat → MState
+  | 0, s, _ => s
+  | fuel + 1, s, target =>
+    match nextEvent s target with
+    | none => s
+    | some t => advLoop fuel (atTime s t) target
+
+/-- advance the virtual clock to `target`, stopping at every instant in between at which something happens -/
+def advanceTo (s : MState) (target : Nat) : MState :=
+  atTime (advLoop (target - s.now + 1) s target) target
+
+/-- the virtual clock moves to `t`: with the gather-once policy nothing but timeouts can happen on the way -/
+def advTo (s : MState) (t : Nat) : MState :=
+  if s.cfg.continual then advanceTo s t else expire { s with now := t }
 
 inductive Op where
   | gather
@@ -1111,6 +1277,10 @@ inductive Op where
   | gather2
   /-- `GatherCandidates`, `Restart`, `GatherCandidates` queued back to back behind a held task loop -/
   | grg
+  /-- the fake Net gets a new interface table (no virtual time passes) -/
+  | ifaces (t : List Iface)
+  /-- the gate of the fake UDP mux is armed again: the next host gatherer parks in `GetListenAddresses` -/
+  | hold
   deriving Repr, Inhabited
 
 /-- result token of an operation (`pair`: the results of several queued calls, in order) -/
@@ -1122,18 +1292,27 @@ inductive Rtok where
 def applyFailed (s : MState) (failedNow : Nat) : MState :=
   if failedNow > s.failed then { dropCands s with failed := failedNow } else s
 
+/-- the instant up to which Close waits for the goroutines of cycle `cur` (0 = it does not wait) -/
+def closeDeadline (s : MState) (noWait : Bool) (cur : Nat) : Nat :=
+  if noWait then 0 else ((s.jobs.filter (fun j => j.cyc == cur)).map (·.deadline)).foldl max 0
+
+/-- Close waits (the harness moves the virtual clock in steps of 500 ms) until `dl` has passed -/
+def closeWait (s : MState) (dl : Nat) : MState :=
+  if dl > s.now then { s with now := s.now + 500 * ((dl - s.now + 499) / 500) } else s
+
 def closeAgent (s : MState) : MState :=
   let s := openGate s
   let cur := s.cyc.cycles.length - 1
   -- a STUN request of a live cycle is ended by its watcher (socket closed on loop.Done) or, with the
   -- srflx mux, by its context; the watcher of a cycle cancelled by Restart has already gone
   let live := fun (j : Job) => ((s.cyc.cycles[j.cyc]?).map (fun c => !c.cancelled)).getD false
-  let (cy, _) := Cycle.step false s.cyc .close
-  let s := { s with cyc := cy }
+  -- C09-G11: `gatherCandidateDone` is closed when the FIRST pass is over; the code with the finding does not wait
+  -- for a re-gather pass of the monitor
+  let noWait := s.cfg.has 11 && s.mon.isSome
+  let s := { s with cyc := (Cycle.step false s.cyc .close).1, mon := none }
   let s := resume s (fun j => if isStunJob j && live j then some (.fail, 0) else none)
   -- Close waits for the goroutines of the last cycle: they run into their timeouts
-  let dl := ((s.jobs.filter (fun j => j.cyc == cur)).map (·.deadline)).foldl max 0
-  let s := if dl > s.now then { s with now := s.now + 500 * ((dl - s.now + 499) / 500) } else s
+  let s := closeWait s (closeDeadline s noWait cur)
   let s := resume s (fun j => if j.deadline ≤ s.now then some (.fail, 0) else none)
   dropCands s
 
@@ -1154,14 +1333,14 @@ def startCycle (s : MState) (cg : Option (Nat × Nat)) : MState :=
     let (cy, outs) := Cycle.step false s.cyc (.start c)
     match outs with
     | [] => { s with cyc := cy }
-    | _ => finishCycle (runCycleUnits { s with cyc := cy } c gen)
+    | _ => finishCycle (runCycleUnits (recordKnown { s with cyc := cy }) c gen)
 
 /-- the `Restart` task -/
 def restartOp (s : MState) : MState × Rtok :=
   let (cy, outs) := Cycle.step false s.cyc .restart
   match outs with
   | [.restarted _] =>
-    let s := dropCands { s with cyc := cy, nilsGen := 0 }
+    let s := dropCands { s with cyc := cy, nilsGen := 0, mon := none }
     (resume s (fun j => if j.unit.kind == .srflxMux then some (.fail, 0) else none), .ok)
   | _ => (s, .closed)
 
@@ -1180,7 +1359,7 @@ def step (s : MState) : Op → MState × Rtok
     match outs with
     | [.accepted c gen] =>
       let (cy, _) := Cycle.step false cy (.start c)
-      let s := runCycleUnits { s with cyc := cy } c gen
+      let s := runCycleUnits (recordKnown { s with cyc := cy }) c gen
       (finishCycle s, .ok)
     | [.closedErr] => (s, .closed)
     | _ => (s, .multiple)
@@ -1188,26 +1367,29 @@ def step (s : MState) : Op → MState × Rtok
     let (cy, outs) := Cycle.step false s.cyc .restart
     match outs with
     | [.restarted _] =>
-      let s := dropCands { s with cyc := cy, nilsGen := 0 }
+      let s := dropCands { s with cyc := cy, nilsGen := 0, mon := none }
       -- context-aware waits of the cancelled cycle return at once
       (resume s (fun j => if j.unit.kind == .srflxMux then some (.fail, 0) else none), .ok)
     | _ => (s, .closed)
   | .close => (closeAgent s, .ok)
   | .fail t failedNow =>
     if s.cyc.closed then (s, .skip) else
-    let s := expire { s with now := t }
-    (applyFailed s failedNow, .ok)
+    (applyFailed (advTo s t) failedNow, .ok)
   | .release => (openGate s, .ok)
-  | .adv ms => (expire { s with now := s.now + ms }, .ok)
+  | .adv ms => (advTo s (s.now + ms), .ok)
+  | .ifaces t =>
+    -- an operation starts from a flushed state (no callbacks pending); the table it replaces is remembered
+    ({ s with ifs := t, ifsHist := s.ifs :: s.ifsHist, evs := [], nilOp := 0 }, .ok)
+  | .hold => ({ s with gateClosed := s.gateClosed || s.cfg.udpMux.isSome }, .ok)
   | .stunreply k m =>
     match (sortedJobs s isStunJob)[k]? with
     | none => (s, .skip)
-    | some j => (finishCycle (resume s (fun x => if x.cyc == j.cyc && x.unit == j.unit then some (.ok, m) else none)), .ok)
+    | some j => (monKick (finishCycle (resume s (fun x => if x.cyc == j.cyc && x.unit == j.unit then some (.ok, m) else none))), .ok)
   | .turnreply k ok m =>
     match (sortedJobs s isTurnJob)[k]? with
     | none => (s, .skip)
     | some j =>
-      (finishCycle (resume s (fun x => if x.cyc == j.cyc && x.unit == j.unit then some (if ok then .ok else .fail, m) else none)), .ok)
+      (monKick (finishCycle (resume s (fun x => if x.cyc == j.cyc && x.unit == j.unit then some (if ok then .ok else .fail, m) else none))), .ok)
 
 /-- constructor checks of `NewAgent` that concern gathering -/
 inductive NewErr where
@@ -1222,7 +1404,7 @@ def newAgent (cfg : Config) (ifs : List Iface) : Except NewErr MState :=
     .error .uselessUrls
   else if cfg.hostRule.isSome && cfg.mdnsGather then .error .mdnsRewrite
   else if cfg.hostRule.isSome && !cfg.candTypes.contains .host then .error .ineffectiveHost
-  else .ok { cfg := cfg, ifs := ifs, gateClosed := cfg.hold }
+  else .ok { cfg := cfg, ifs := ifs, gateClosed := cfg.hold, cyc := { continual := cfg.continual } }
 
 /-! ## 5. Observations (what the harness prints after every operation) -/
 
@@ -1254,6 +1436,8 @@ structure Obs where
   hidden : Nat := 0
   /-- parked requests: (is TURN, generation, key) -/
   pend : List (Bool × Nat × String) := []
+  /-- `lastKnownInterfaces` (continual gathering; empty once the agent is closed) -/
+  lk : List (Addr × Option Nat) := []
   deriving Repr, Inhabited
 
 def countBy (l : List (Kind × Nat)) : List ((Kind × Option Nat) × Nat) :=
@@ -1275,7 +1459,8 @@ def observe (s : MState) : Obs :=
     muxGets := s.muxGets.map (fun p => ((p.1.1, some p.1.2), p.2))
     held := s.heldCycles.length
     hidden := if s.cyc.closed then 0 else (s.cands.filter (fun c => c.d.hidden)).length
-    pend := (s.jobs.filter (fun j => isStunJob j || isTurnJob j)).map (fun j => (isTurnJob j, j.gen, j.key)) }
+    pend := (s.jobs.filter (fun j => isStunJob j || isTurnJob j)).map (fun j => (isTurnJob j, j.gen, j.key))
+    lk := if s.cyc.closed then [] else s.lastKnown }
 
 /-- forget the per-operation event buffers once they have been observed -/
 def MState.flush (s : MState) : MState := { s with evs := [], nilOp := 0 }
